@@ -271,6 +271,8 @@ fn editor_text() -> BoxedStrategy<String> {
         4 => g::sentence(),
         2 => (g::sel_str(&["😀 ", "𝒜𝒷 ", "e\u{301} ", "\t", "  \t", "中文 ", "👨\u{200d}👩\u{200d}👧 "]), g::sentence()).prop_map(|(a, s)| a + &s),
         2 => g::sel_str(&["Their is an apple.", "I could of done it teh right way.", "This is an test with an problm.", "the the cat", "An 1nd time.", "teh"]),
+        // lints whose span runs across markup or a comment-line boundary
+        2 => g::sel_str(&["I saw the *the* cat.", "All of *the* sudden it rained.", "I saw the <b>the</b> cat.", "We could **of** gone, an *apple* a day.", "I saw the\nthe cat.", "It is a [an](x) apple and the `x` the end.", "there _fore_ we go", "an  *apple* and a  **apple**"]),
         1 => (g::sentence(), g::sel_str(&[" 😀 teh", " 𝒜 an apple an problem", "\tteh"])).prop_map(|(s, t)| s + &t),
         1 => Just(String::new()),
     ];
